@@ -110,6 +110,18 @@ func (r *RibEntry) pruneIfEmpty() {
 }
 
 func (r *RibEntry) updateNexthopsEnc() {
+	// An entry without routes of its own (e.g. a node that only exists on the
+	// path to a longer prefix) contributes nothing to the FIB
+	if len(r.routes) == 0 {
+		if r.Name != nil {
+			FibStrategyTable.ClearNextHopsEnc(r.Name)
+		}
+		for child := range r.children {
+			child.updateNexthopsEnc()
+		}
+		return
+	}
+
 	FibStrategyTable.ClearNextHopsEnc(r.Name)
 
 	// All routes including parents if needed
